@@ -290,11 +290,15 @@ package vm
 //@   modifies *cache
 
 //@ func (evm *EVM) createFramePreCheck(caller common.Address, value *uint256.Int) (err error)
-//@   serves C29
+//@   serves C29 C32
 //@   ensures err == nil ==> evm.depth <= 1024
+//@   ghostvar canT bool = false
+//@   oncall CanTransfer: canT = result
+//@   atcall funcfield:BlockContext.CanTransfer requires arg2 == caller && arg3 == value
+//@   ensures err == nil ==> canT
 
 //@ func (evm *EVM) Call(caller common.Address, addr common.Address, input []byte, gas GasBudget, value *uint256.Int) (ret []byte, result GasBudget, err error)
-//@   serves C29 C31 C27
+//@   serves C29 C31 C27 C32
 //@   requires freshBudget(gas)
 //@   ghostvar hasSnap bool = false
 //@   ghostvar snap int = 0
@@ -310,6 +314,13 @@ package vm
 //@   ensures err != nil && err != ErrExecutionReverted && err != ErrDepth && err != ErrInsufficientBalance ==> result.ExecutionGas == 0
 //@   modifies evm.depth, evm.readOnly, evm.returnData, *evm.AccessEvents, *evm.precompileCache
 //@   mutates
+//@   ghostvar canT bool = false
+//@   ghostvar ntransfer int = 0
+//@   oncall CanTransfer: canT = result
+//@   oncall Transfer: ntransfer = ntransfer + 1
+//@   atcall funcfield:BlockContext.Transfer requires (u256val(arg4) == 0 || canT) && arg2 == caller && arg3 == addr && arg4 == value
+//@   atcall funcfield:BlockContext.CanTransfer requires arg2 == caller && arg3 == value
+//@   ensures ntransfer <= 1
 
 //@ func (evm *EVM) CallCode(caller common.Address, addr common.Address, input []byte, gas GasBudget, value *uint256.Int) (ret []byte, result GasBudget, err error)
 //@   serves C29 C31 C27
@@ -327,6 +338,9 @@ package vm
 //@   ensures err != nil ==> result.StateGas == gas.StateGas && result.UsedStateGas == 0 && result.Spilled == 0
 //@   modifies evm.depth, evm.readOnly, evm.returnData, *evm.AccessEvents, *evm.precompileCache
 //@   mutates
+//@   ghostvar ntransfer int = 0
+//@   oncall Transfer: ntransfer = ntransfer + 1
+//@   ensures ntransfer == 0
 
 //@ func (evm *EVM) DelegateCall(originCaller common.Address, caller common.Address, addr common.Address, input []byte, gas GasBudget, value *uint256.Int) (ret []byte, result GasBudget, err error)
 //@   serves C29 C31 C27
@@ -344,6 +358,9 @@ package vm
 //@   ensures err != nil ==> result.StateGas == gas.StateGas && result.UsedStateGas == 0 && result.Spilled == 0
 //@   modifies evm.depth, evm.readOnly, evm.returnData, *evm.AccessEvents, *evm.precompileCache
 //@   mutates
+//@   ghostvar ntransfer int = 0
+//@   oncall Transfer: ntransfer = ntransfer + 1
+//@   ensures ntransfer == 0
 
 //@ func (evm *EVM) StaticCall(caller common.Address, addr common.Address, input []byte, gas GasBudget) (ret []byte, result GasBudget, err error)
 //@   serves C29 C31 C27
@@ -361,12 +378,15 @@ package vm
 //@   ensures err != nil ==> result.StateGas == gas.StateGas && result.UsedStateGas == 0 && result.Spilled == 0
 //@   modifies evm.depth, evm.readOnly, evm.returnData, *evm.AccessEvents, *evm.precompileCache
 //@   mutates
+//@   ghostvar ntransfer int = 0
+//@   oncall Transfer: ntransfer = ntransfer + 1
+//@   ensures ntransfer == 0
 
 // create: the caller's nonce bump and the access-list warm-up happen before the snapshot on
 // purpose (they survive a failed creation); everything after the snapshot must be rolled back
 // on failure, except that pre-Homestead a code-store out-of-gas is treated as success.
 //@ func (evm *EVM) create(caller common.Address, code []byte, gas GasBudget, value *uint256.Int, address common.Address, typ OpCode) (ret []byte, createAddress common.Address, result GasBudget, err error)
-//@   serves C29 C31 C27
+//@   serves C29 C31 C27 C32
 //@   requires freshBudget(gas)
 //@   ghostvar hasSnap bool = false
 //@   ghostvar snap int = 0
@@ -382,6 +402,13 @@ package vm
 //@   ensures err != nil && (evm.chainRules.IsHomestead || err != ErrCodeStoreOutOfGas) ==> result.StateGas == gas.StateGas && result.UsedStateGas == 0 && result.Spilled == 0
 //@   modifies evm.depth, evm.readOnly, evm.returnData, *evm.AccessEvents, *evm.precompileCache
 //@   mutates
+//@   ghostvar pre bool = false
+//@   ghostvar ntransfer int = 0
+//@   oncall createFramePreCheck: pre = result == nil
+//@   oncall Transfer: ntransfer = ntransfer + 1
+//@   atcall funcfield:BlockContext.Transfer requires (evm.chainRules.IsAmsterdam || pre) && arg2 == caller && arg3 == address && arg4 == value
+//@   atcall createFramePreCheck requires arg2 == caller && arg3 == value
+//@   ensures ntransfer <= 1
 
 //@ func (evm *EVM) Create(caller common.Address, code []byte, gas GasBudget, value *uint256.Int) (ret []byte, contractAddr common.Address, result GasBudget, err error)
 //@   serves C29 C31
